@@ -17,7 +17,7 @@ from vf import pyvc
 from vf.core import Ob, PROVED, REFUTED, UNDECIDED, scenario, simple_ob, sym_run
 from vf import instrument
 from vf.instrument import repo_root
-from vf.jasmrt import J, ensure
+from vf.jasmrt import J, NullLog, ensure
 from vf.pyvc import Name, SymSeq, ctx
 from vf.rt import Splice
 
@@ -46,6 +46,12 @@ CONFIGS = {
     "style-att": lambda: {"style": "att"},
     "style-intel": lambda: {"style": "intel"},
     "range": lambda: {"valid_addr_range": {"min": "0x10", "max": "ff"}},
+    "range-equal": lambda: {"valid_addr_range": {"min": "0x401000", "max": "401000"}},
+    "range-zero": lambda: {"valid_addr_range": {"min": "0x0", "max": "0"}},
+    "range-from-zero": lambda: {"valid_addr_range": {"min": "0", "max": "0x00ff"}},
+    "range-upper-case": lambda: {"valid_addr_range": {"min": "0xAB", "max": "0XFF" if False else "FF"}},
+    # max below min: an empty range; whatever the loader makes of it (an empty range or a loud error), it is not the previous rule's
+    "range-inverted": lambda: {"valid_addr_range": {"min": "0x4fffff", "max": "0x400000"}},
     "sections-seq": lambda: {"sections": SymSeq("sections", Name("sec_k"), 0)},
     "sections-two": lambda: {"sections": [Name("s1"), Name("s2")]},
     "all": lambda: {"style": "att", "mnemonics-full-match": False, "operands-full-match": True,
@@ -84,7 +90,9 @@ def load_config():
         for i, p in enumerate(run.paths):
             base = f"load_config:{cid}:p{i}"
             if p.kind != "ret":
-                obs.append(simple_ob(base + ":EXC", JC + ".load_config", "EXC", "no exception for a valid config", False, P14, detail=repr(p.value), witness=cid))
+                loud_ok = cid == "range-inverted" and isinstance(p.value, ValueError)
+                obs.append(simple_ob(base + ":EXC", JC + ".load_config", "EXC", "no exception for a valid config (an inverted range may be "
+                                     "rejected with ValueError)", loud_ok, ["C14", "C01", "C15", "C18"], detail=repr(p.value), witness=cid))
                 continue
             gi, conf = p.value
             stale = [k for k, v in gi.items() if isinstance(v, Sentinel)]
@@ -295,17 +303,24 @@ SD = "jasm.stringify_asm.implementations.shell_disassembler.ShellDisassembler.di
 P15 = ["C15"]
 
 
-@scenario("disasm:flags", GD, ["C15", "C14"], inlined=["_form_section_flags", "ShellDisassembler.__init__", "JASMConfig.get_info"],
+@scenario("disasm:flags", GD, ["C15", "C14", "C18"], inlined=["_form_section_flags", "ShellDisassembler.__init__", "JASMConfig.get_info"],
           doc="objdump argv: -d -M att then one -j per configured section, in order")
 def flags():
     ensure()
     obs: List[Ob] = []
     CONC = [".text", "hotcode", "UPX0", "__libc_freeres_fn", ".init.text", "CODE"]     # section names need not begin with a dot
+    # "+all": the other entries of the rule's config are set as well -- the argv depends on sections (and the style) only;
+    # in particular a valid_addr_range never narrows what objdump is asked to disassemble
+    OTHER = {"valid_addr_range": {"min": "0x401040", "max": "0x40107f"}, "mnemonics-full-match": True, "operands-full-match": True}
     for sid, mk in (("none", lambda: None), ("empty", lambda: []), ("two", lambda: [Name("s1"), Name("s2")]),
-                    ("seq", lambda: SymSeq("sections", Name("sec_k"), 1)), ("concrete", lambda: list(CONC))):
+                    ("seq", lambda: SymSeq("sections", Name("sec_k"), 1)), ("concrete", lambda: list(CONC)),
+                    ("none+all", lambda: None), ("two+all", lambda: [Name("s1"), Name("s2")])):
         def fn():
             cfg = J.gd.JASMConfig.get_instance()
-            cfg.load_config({} if mk() is None else {"sections": mk()})
+            conf = {} if mk() is None else {"sections": mk()}
+            if sid.endswith("+all"):
+                conf.update(OTHER)
+            cfg.load_config(conf)
             d1 = J.gnud.GNUObjdumpDisassembler(enum_disas_style=J.gd.DisassStyle.att)
             d2 = J.gnud.GNUObjdumpDisassembler(enum_disas_style=J.gd.DisassStyle.att)
             return [d1.program, d1.flags, d2.flags]
@@ -322,9 +337,9 @@ def flags():
             prog, fl, fl2 = p.value
             head = fl[:3]
             tail = fl[3:]
-            if sid in ("none", "empty"):
+            if sid in ("none", "empty", "none+all"):
                 okt = tail == []
-            elif sid == "two":
+            elif sid in ("two", "two+all"):
                 okt = [getattr(x, "ident", x) for x in tail] == ["-j", "s1", "-j", "s2"]
             elif sid == "concrete":
                 okt = tail == [x for s_ in CONC for x in ("-j", s_)]
@@ -334,7 +349,8 @@ def flags():
                        and getattr(tail[0].seq.elem[1], "ident", None) == "sec_k" and tail[0].seq.root == "sections")
             obs.append(simple_ob(base + ":POST-argv", GD, "POST",
                                  "program objdump, flags = ['-d','-M','att'] ++ flatten([['-j', s] for s in sections]) in order",
-                                 prog == "objdump" and head == ["-d", "-M", "att"] and okt, P15, detail=repr(fl), witness=repr(fl)))
+                                 prog == "objdump" and head == ["-d", "-M", "att"] and okt, P15 + (["C18"] if sid.endswith("+all") else []),
+                                 detail=repr(fl), witness=repr(fl)))
             obs.append(simple_ob(base + ":FRAME-fresh-list", GD, "FRAME", "the flag list is built per instance (no list shared between disassemblers)",
                                  fl is not fl2, ["C14", "C15"], detail="", witness="shared"))
     return obs
@@ -383,7 +399,7 @@ def shell():
         mod = J.shell
         o_sp, o_path, o_log = mod.subprocess, mod.Path, mod.logger
         mod.subprocess, mod.Path = SP, PathStub
-        mod.logger = type("L", (), {"info": staticmethod(lambda *a: None), "error": staticmethod(lambda *a: None)})
+        mod.logger = NullLog()
         try:
             d = mod.ShellDisassembler(program=Name("prog"), flags=[Name("f1"), Name("f2")])
             try:
@@ -431,7 +447,7 @@ def shell():
     mod = J.shell
     o_sp, o_path, o_log = mod.subprocess, mod.Path, mod.logger
     mod.subprocess, mod.Path = SP2, type("P", (), {"__init__": lambda self, p: None, "exists": lambda self: True})
-    mod.logger = type("L", (), {"info": staticmethod(lambda *a: None), "error": staticmethod(lambda *a: None)})
+    mod.logger = NullLog()
     try:
         J.gd.JASMConfig.get_instance().load_config({})
         outs = []
